@@ -6,8 +6,11 @@ for d in /verif/seeded/*/; do
   name=$(basename $d); prop=$(jq -r .property $d/meta.json)
   if ! git apply --check $d/patch.diff 2>/dev/null; then echo "$name: patch does not apply to HEAD"; continue; fi
   git apply $d/patch.diff
-  out=$(cd /verif && ./check.sh $prop quick 2>&1); e=$?
-  rules=$(echo "$out" | grep "^VIOLATED" | sed -E 's/^VIOLATED: [A-Z0-9]+ (R[0-9.a-z]+) .*/\1/' | sort -u | tr '\n' ' ')
+  e=0; rules=""
+  for cp in $(jq -r '(.check_props // [.property])[]' $d/meta.json); do
+    out=$(cd /verif && ./check.sh $cp quick 2>&1); [ $? -ne 0 ] && e=1
+    rules="$rules$(echo "$out" | grep "^VIOLATED" | sed -E 's/^VIOLATED: [A-Z0-9]+ (R[0-9.a-z]+) .*/\1/' | sort -u | tr '\n' ' ')"
+  done
   git checkout -- . ; git clean -fdq -- . 2>/dev/null
   echo "$name: prop=$prop exit=$e rules=[$rules]"
 done
